@@ -55,29 +55,41 @@ Section TypeInfo.
         end
     end.
 
-  (** a value whose ExpectedTypes / DefaultValues entries are ([e], [d]) — set by its parent —
-      together with everything beneath it *)
-  Fixpoint ti_value (e : option sty) (d : bool) (v : value) : value :=
-    let a := {| va_expected := e; va_default := d |} in
+  (** isScalarLiteral: the literal is nested in a literal given for a scalar ([sc]) or is itself
+      given for one *)
+  Definition scalar_expected (e : option sty) : bool :=
+    match e with
+    | Some t => match raw_body S (unwrapped t) with Some (TScalar _) => true | _ => false end
+    | None => false
+    end.
+
+  (** a value whose ExpectedTypes / DefaultValues / ScalarLiteralValues entries are ([e], [d],
+      [sc]) — set by its parent — together with everything beneath it *)
+  Fixpoint ti_value_in (sc : bool) (e : option sty) (d : bool) (v : value) : value :=
+    let a := {| va_expected := e; va_default := d; va_scalar := sc |} in
     match v with
     | VList _ vs p =>
         let item := match e with
                     | Some t => match nullable t with StList t' => Some t' | _ => None end
                     | None => None
                     end in
-        VList a (map (ti_value item false) vs) p
+        let sc' := match item with Some _ => false | None => sc || scalar_expected e end in
+        VList a (map (ti_value_in sc' item false) vs) p
     | VObject _ fs p =>
         let defs := object_fields e in
+        let sc' := match defs with Some _ => false | None => sc || scalar_expected e end in
         VObject a
           (map (fun f => match f with
                          | (n, np, x) =>
                              match match defs with Some l => assoc n l | None => None end with
-                             | Some def => (n, np, ti_value (Some (in_type def)) (dflt_is_value (in_default def)) x)
-                             | None => (n, np, ti_value None false x)
+                             | Some def => (n, np, ti_value_in false (Some (in_type def)) (dflt_is_value (in_default def)) x)
+                             | None => (n, np, ti_value_in sc' None false x)
                              end
                          end) fs) p
     | _ => set_ann a v
     end.
+  (** a value that is not nested in a literal *)
+  Definition ti_value (e : option sty) (d : bool) (v : value) : value := ti_value_in false e d v.
 
   (** arguments of a directive or field whose definition has [defs] ([None]: no definition found);
       [dnil] says when DefaultValues gets a non-nil entry *)
